@@ -124,3 +124,40 @@ Proof.
     destruct (negb _); [destruct (h_id h)|]; cbn; rewrite ?andb_false_r; reflexivity.
   - cbn. reflexivity.
 Qed.
+
+Lemma eq_specb_spec a b : eq_specb a b = true <-> a = b.
+Proof.
+  destruct a, b; unfold eq_specb; cbn. rewrite !andb_true_iff, !Z.eqb_eq.
+  split; [intros [[-> ->] ->]; reflexivity | intro H; injection H; auto].
+Qed.
+
+Lemma canRead_specb_spec lib f : canRead_specb lib f = FormatVersion_canRead lib f.
+Proof.
+  destruct (FormatVersion_canRead lib f) eqn:E.
+  - apply canRead_spec in E. unfold canRead_specb. destruct E as [-> E]. rewrite Z.eqb_refl. cbn. lia.
+  - destruct (canRead_specb lib f) eqn:E2; [|reflexivity].
+    unfold canRead_specb in E2. apply andb_true_iff in E2. destruct E2 as [E2 E3].
+    assert (FormatVersion_canRead lib f = true) by (apply canRead_spec; lia). congruence.
+Qed.
+
+(** the extracted oracle is the gate: for complete headers, opening succeeds iff [gate_specb] *)
+Lemma gate_specb_correct x y z mode force :
+  (exists n, open_file (H5file (good_header x y z) true n) mode force = Ok n) <->
+  gate_specb x y z mode force = true.
+Proof.
+  destruct mode; cbn [open_file gate_specb is_rw negb andb].
+  - (* ReadWrite *)
+    destruct force; cbn [orb].
+    + split; [reflexivity|]. intros _. exists 0.
+      rewrite force_bypasses; [reflexivity|]. cbn. intros vv [= <-]. reflexivity.
+    + rewrite eq_specb_spec, <- gate_rw. split.
+      * intros [n H]. destruct (open_existing _ _ false) as [[]| |] eqn:E; [reflexivity|cbn [bind] in H; discriminate H|cbn [bind] in H; discriminate H].
+      * intros ->. exists 0. reflexivity.
+  - destruct force; cbn [orb].
+    + split; [reflexivity|]. intros _. exists 0.
+      rewrite force_bypasses; [reflexivity|]. cbn. intros vv [= <-]. reflexivity.
+    + rewrite canRead_specb_spec, canRead_spec. cbn [FormatVersion_vx FormatVersion_vy]. rewrite <- (gate_ro x y z). split.
+      * intros [n H]. destruct (open_existing _ _ false) as [[]| |] eqn:E; [reflexivity|cbn [bind] in H; discriminate H|cbn [bind] in H; discriminate H].
+      * intros ->. exists 0. reflexivity.
+  - split; [reflexivity|]. intros _. exists 0. reflexivity.
+Qed.
